@@ -173,6 +173,9 @@ def seeds(R, rng, tier):
         "subprocess.Popen('ls -l', shell=True)\nsubprocess.call('ls *', shell=True)\nrequests.get(zz_u, verify=False)\n"
         "os.system('chmod 777 *')\nos.popen('tar cf x *')\nsubprocess.Popen(['ls'], shell=False)\n"
         "zz_f('/tmp/zz', password='0.0.0.0')\nos.chmod('/tmp/zz', 0o777)\nhashlib.new('md5', password='x')\n")
+    tx = os.path.join(core.REPO, "examples", "tarfile_extractall.py")
+    if os.path.exists(tx):
+        open(os.path.join(d, "pkg", "zz_tarfile_extractall.py"), "wb").write(open(tx, "rb").read())
     fmts = ["json", "yaml", "csv", "xml", "sarif"]
     seeds_ = ["0", "1", "2", "3", "4"] if tier == "quick" else ["0", "1", "2", "3", "4", "5", "6", "7", "8", "9", "10", "11"]
     runs = [(fmt, []) for fmt in fmts] + [("json", ["-t", "B602,B603,B607,B609,B501,B113,B605,B103,B108,B106,B324"]),
@@ -187,6 +190,12 @@ def seeds(R, rng, tier):
             outs[s] = (p.returncode, text)
             R.case(("seed", fmt, s), sample={"format": fmt, "hash_seed": s, "bytes": len(text), "exit": p.returncode})
             R.count("seed:" + fmt)
+        # object addresses printed into a message (the known finding) are compared separately from everything else
+        canon = {s_: (rc_, impl._ADDR.sub("<AST-OBJECT>", t_)) for s_, (rc_, t_) in outs.items()}
+        if all(canon[s_] == canon[seeds_[0]] for s_ in seeds_) and any(outs[s_] != outs[seeds_[0]] for s_ in seeds_):
+            R.violations.append({"what": "%s reports of two runs over the same inputs differ only in object addresses embedded in a message" % fmt,
+                                 "input": {"format": fmt, "options": sel}, "observed": None, "signature": "message-embeds-object-address"})
+        outs = canon
         base = outs[seeds_[0]]
         for s in seeds_[1:]:
             if outs[s] != base:
